@@ -149,6 +149,9 @@ class Lifter:
         edges = {c["edge"] for c in clocked.values()}
         if edges - {"rising"}:
             raise Unsupported("falling-edge clock (the circuit model of the certificate checker is rising-edge only)")
+        for n in e.nets:
+            if n.ty[0] == "array":
+                raise Unsupported("memory (array signal; GenericMemoryEntity) - interpreter route only")
         # one forwarding node per net
         for n in e.nets:
             if n.id in clocks or n.id in resets:
@@ -273,6 +276,8 @@ class Lifter:
                 self.exec_case(s, p, env, clocked)
             elif k in ("assert", "null"):
                 pass
+            elif k == "sassign_idx":
+                raise Unsupported("memory write (array signal) - interpreter route only")
             else:
                 raise Unsupported("statement " + k)
 
@@ -490,6 +495,13 @@ class Lifter:
             if ch != 0:
                 raise Unsupported("aggregate choice other than 0")
             return SV(x.ref, 1, "str", x.lit)
+        if k == "qual":
+            a = self.expr(e[2], p, env, (e[1], 0, 0))
+            if a.kind not in ("str", e[1]):
+                raise LiftError(f"{p.label}: qualified expression {e[1]}'(..) applied to {a.kind}")
+            return SV(a.ref, a.w, e[1], a.lit)
+        if k == "dynindex":
+            raise Unsupported("memory read (array signal) - interpreter route only")
         if k == "call":
             return self.call(e, p, env, ctx)
         raise Unsupported("expression " + k)
